@@ -31,14 +31,18 @@ from harness.c18_model import S, I, B, Z, F, L, M, EXC, SIG
 
 ID = "C18"
 LEVEL = "exploration"
-RULE = ("all plays of the universe U (mappings over sharp key / scalar alphabets, lists and mappings of <= 2, nesting "
-        "depth <= 2 quick / 3 thorough, built as dict / OrderedDict and, for a sub-universe, loaded from YAML text) "
-        "grouped globally by the real digest; all substrings of the serialised text of 2-entry plays re-used as key or "
-        "value; all exclusion strings x play shapes x signature states; all revocation lists x signature states. "
+RULE = ("all plays of the universe U (mappings over sharp key / scalar alphabets, lists and mappings of <= 2 plus all "
+        "trees of <= 5 (6) nodes with <= 4 children, 3 and 4 top-level entries, a zoo of falsy / boundary / control-"
+        "character / look-alike scalars in every position and in all ordered pairs, nesting depth <= 2 quick / 3 "
+        "thorough, built as dict / OrderedDict and, for a sub-universe, loaded from YAML text) grouped globally by the "
+        "real digest; all substrings of the serialised text of 2- and 3-entry plays re-used as key or value; all "
+        "exclusion paths of <= 3 labels in canonical and deviating syntax x play shapes x signature states; all "
+        "revocation lists x signature states; ordered pairs of equal-but-differently-typed scalars serialised one after "
+        "the other in one fresh interpreter; all edit sequences of <= 3 steps on one long-lived play object. "
         "An O1 play is non-trivial when another, structurally different play of U has the same serialised text after "
         "deleting quotes, backslashes and brackets (only quoting / typing / nesting marks separate the two); an O2 "
         "play when its text has exactly the length of the attacked text; an exclusion / verify case when the "
-        "reference model demands an error")
+        "reference model demands an error; a history when it has more than one step")
 ASSUMPTIONS = ["GPG is out of scope: gnupg.GPG is replaced by a stub that declares a signature valid iff it equals "
                "'SIG:'+hex(digest); pkgutil.get_data is stubbed for revoked_playbooks.yaml only",
                "the YAML spelling of a scalar (quoting style, 0x1 vs 1) and the container class (dict vs CommentedMap) "
@@ -46,11 +50,17 @@ ASSUMPTIONS = ["GPG is out of scope: gnupg.GPG is replaced by a stub that declar
                "Python >= 3.12 code path (PlaybookSerializer); the str(play) path of older interpreters is not exercised",
                "bounded: no counterexample inside the stated universe, nothing more"]
 BOUNDS = {"quick": {"depth": 2, "list_len": 2, "mapping_len": 2, "top_level_entries": 2, "scalars": 21, "keys": 16,
-                    "quote_alphabet_string_len": 3, "quote_alphabet_pair_len": 2, "o1_buckets": 8, "o2_entries": 2,
-                    "o2_skeletons": 4, "yaml_chunk": 12, "exclusion_strings": 37, "revocation_lists": 7},
+                    "quote_alphabet_string_len": 3, "quote_alphabet_pair_len": 2, "o1_buckets": 6, "o2_entries": 3,
+                    "o2_skeletons": "4 (2 entries) / 8 (3 entries)", "yaml_chunk": 12, "exclusion_strings": 38,
+                    "exclusion_path_labels": 3, "revocation_lists": 14, "signature_kinds": 6, "zoo_scalars": 109,
+                    "zoo_pair_scalars": 53, "tree_nodes": 5, "tree_children": 4, "entries_more": "3 and 4",
+                    "history_steps": 3, "equal_scalar_ordered_pairs": 18},
           "thorough": {"depth": 3, "list_len": 2, "mapping_len": 2, "top_level_entries": 2, "scalars": 21, "keys": 16,
-                       "quote_alphabet_string_len": 4, "quote_alphabet_pair_len": 2, "o1_buckets": 16, "o2_entries": 2,
-                       "o2_skeletons": 4, "yaml_chunk": 12, "exclusion_strings": 37, "revocation_lists": 7}}
+                       "quote_alphabet_string_len": 4, "quote_alphabet_pair_len": 2, "o1_buckets": 16, "o2_entries": 3,
+                       "o2_skeletons": "4 (2 entries) / 8 (3 entries)", "yaml_chunk": 12, "exclusion_strings": 38,
+                       "exclusion_path_labels": 3, "revocation_lists": 14, "signature_kinds": 6, "zoo_scalars": 109,
+                       "zoo_pair_scalars": 109, "tree_nodes": 6, "tree_children": 4, "entries_more": "3 and 4",
+                       "history_steps": 3, "equal_scalar_ordered_pairs": 18}}
 CAP_S = {"quick": 200, "thorough": 1800}
 
 STD = "/hosts,/vars/insights_signature"
@@ -275,9 +285,17 @@ def zoo_scalars(full=True):
             str(2 ** 64), "[]", "ordereddict()", "()", "b'hi'", "b''", "2001-12-14", "2001-12-14 00:00:00",
             "{key}", "{value}", "{0}", "{}", "%s", "\\n", "\\t", "\\r", "\\x00", "\\u200b", "\\u2028", "\\ufeff",
             "\\\\", "'", '"', "\\'", " ", "a ", " a"]
+    ints = [0, 1, -1, 10, 2 ** 63, 2 ** 64, 10 ** 30]
+    floats = [0.0, -0.0, 1.0, 0.1, 1e16, 1e22, 1e-07, float("inf"), float("-inf"), float("nan")]
+    if not full:                  # the scalars used in ALL ordered pairs (quick)
+        drop = {"10", "-1", "1e+16", str(2 ** 64), "b''", "2001-12-14 00:00:00", "{value}", "{0}", "{}", "\\t", "\\r",
+                "\\u2028", "\\ufeff", "a ", " a", "()"}
+        strs = [t for t in strs if t not in drop]
+        ints = [0, 1, -1, 2 ** 64]
+        floats = [0.0, -0.0, 1.0, 1e16, float("inf"), float("nan")]
     out = [S(t) for t in strs] + [S(c) for c in ctrl + uni]
-    out += [I(0), I(1), I(-1), I(10), I(2 ** 63), I(2 ** 64), I(10 ** 30), B(True), B(False), Z]
-    out += [F(x) for x in (0.0, -0.0, 1.0, 0.1, 1e16, 1e22, 1e-07, float("inf"), float("-inf"), float("nan"))]
+    out += [I(n) for n in ints] + [B(True), B(False), Z]
+    out += [F(x) for x in floats]
     out += [["o", "bytes", b"hi".hex()], ["o", "bytes", ""], ["o", "date", "2001-12-14"],
             ["o", "datetime", "2001-12-14T00:00:00"]]
     return out
@@ -441,7 +459,7 @@ def yaml_zoo_plays():
 O2_KEYS = {"quick": [(S("a"), S("b")), (S("a'b"), S("b")), (I(1), S("b")), (S("a"), S("a b"))],
            "thorough": [(S("a"), S("b")), (S("a'b"), S("b")), (I(1), S("b")), (S("a"), S("a b")), (S("a"), Z),
                         (S('a"b'), S("b")), (S("a\\b"), S("b"))]}
-O2_VALUES = {"quick": [S("x"), S("a'b"), I(1), B(True), Z, L(S("x")), M((S("c"), S("x"))), L(), S("1")],
+O2_VALUES = {"quick": [S("x"), S("a'b"), I(1), B(True), Z, L(S("x")), M((S("c"), S("x")))],
              "thorough": [S("x"), S("a'b"), I(1), B(True), Z, L(S("x")), M((S("c"), S("x"))), L(), S("1"), S('a"b'),
                           S("a'\"b"), S("a\\b"), F(1.0), M(), L(S("x"), I(1))]}
 DELIMS = set("'\",()[]")
@@ -799,6 +817,10 @@ def order_cases():
             yield {"kind": "order", "first": a, "second": b}
 
 
+def order_pairs():
+    return [(a, b) for g in EQ_GROUPS for a, b in itertools.combinations(g, 2)]
+
+
 def _scalar_plays(z):
     return [wrap([(S("k"), z)]), wrap([(z, S("x"))]), wrap([(S("k"), L(z, S("a")))]), wrap([(S("k"), M((z, z)))])]
 
@@ -830,12 +852,14 @@ def fresh_process_digests(plays):
     return json.loads(pr.stdout.decode())
 
 
-def check_order(case):
+def check_order(case, after=None, alone=None):
     """The digest of a play must not depend on what was serialised before it in the same process."""
     a, b = case["first"], case["second"]
     pa, pb = _scalar_plays(a), _scalar_plays(b)
-    after = fresh_process_digests(pa + pb)[len(pa):]          # b's plays after a's plays
-    alone = fresh_process_digests(pb)                         # b's plays first in a fresh process
+    if after is None:
+        after = fresh_process_digests(pa + pb)[len(pa):]      # b's plays after a's plays
+    if alone is None:
+        alone = fresh_process_digests(pb)                     # b's plays first in a fresh process
     here = []
     for pe in pb:                                             # and in this (long-running) worker process
         r = pipeline(m.dec(pe, dict))
@@ -1151,7 +1175,7 @@ def units(tier, seed):
     n = b["o1_buckets"]
     us = [{"part": "o1", "bucket": i, "of": n} for i in range(n)]
     nb = len(o2_bases(tier))
-    step = 12 if tier == "quick" else 10
+    step = 8 if tier == "quick" else 10
     us += [{"part": "o2", "lo": lo, "hi": min(nb, lo + step)} for lo in range(0, nb, step)]
     us += [{"part": "o3a", "shard": i, "of": 4} for i in range(4)]
     us += [{"part": "yaml", "lo": lo, "hi": hi} for lo, hi in yaml_chunks(tier)]
@@ -1162,7 +1186,7 @@ def units(tier, seed):
     us += [{"part": "o2", "entries": 3, "lo": lo, "hi": min(len(o2_bases3(tier)), lo + 3)}
            for lo in range(0, len(o2_bases3(tier)), 3)]
     us += [{"part": "excl-gen", "mode": md} for md in ("dict", "yaml-flow")]
-    us += [{"part": "order", "index": i} for i in range(len(list(order_cases())))]
+    us += [{"part": "order", "index": i} for i in range(len(order_pairs()))]
     us += [{"part": "hist", "base": bi} for bi in range(len(H_BASES))]
     return us
 
@@ -1421,11 +1445,16 @@ def run_unit(unit, tier):
             _emit(res, vio, case)
         res.samples.append(case)
     elif part == "order":
-        case = list(order_cases())[unit["index"]]
-        vio = check_order(case)
-        res.case(nontrivial=True, outcome="order:%s" % ("differs" if vio else "same"), sample=case)
+        a, b = order_pairs()[unit["index"]]
+        pa, pb = _scalar_plays(a), _scalar_plays(b)
+        ab = fresh_process_digests(pa + pb)                # one fresh interpreter: a's plays, then b's
+        ba = fresh_process_digests(pb + pa)                # another one: b's plays, then a's
         res.stat("fresh_interpreters", 2)
-        _emit(res, vio, case)
+        for first, second, after, alone in ((a, b, ab[len(pa):], ba[:len(pb)]), (b, a, ba[len(pb):], ab[:len(pa)])):
+            case = {"kind": "order", "first": first, "second": second}
+            vio = check_order(case, after=after, alone=alone)
+            res.case(nontrivial=True, outcome="order:%s" % ("differs" if vio else "same"), sample=case)
+            _emit(res, vio, case)
     elif part == "hist":
         for case in hist_cases(tier):
             if case["base"] != unit["base"]:
